@@ -116,8 +116,21 @@ def Z(v):
     return v
 
 
+_SIMP_MEMO: dict = {}
+
+
 def simp(e):
-    return z3.simplify(e) if isinstance(e, z3.ExprRef) else e
+    """z3.simplify with a memo per AST (terms are hash-consed and, with deterministic fresh names, recur on every path)."""
+    if not isinstance(e, z3.ExprRef):
+        return e
+    k = e.get_id()
+    hit = _SIMP_MEMO.get(k)
+    if hit is not None:
+        return hit[1]
+    r = z3.simplify(e)
+    _SIMP_MEMO[k] = (e, r)
+    _SIMP_MEMO.setdefault(r.get_id(), (r, r))
+    return r
 
 
 def conc_int(e):
@@ -127,7 +140,7 @@ def conc_int(e):
     if isinstance(e, int):
         return e
     if isinstance(e, z3.ArithRef):
-        s = z3.simplify(e)
+        s = simp(e)
         if z3.is_int_value(s):
             return s.as_long()
     return None
@@ -137,7 +150,7 @@ def conc_bool(e):
     if isinstance(e, bool):
         return e
     if isinstance(e, z3.BoolRef):
-        s = z3.simplify(e)
+        s = simp(e)
         if z3.is_true(s):
             return True
         if z3.is_false(s):
@@ -345,7 +358,7 @@ class PathSolver:
     def entails(self, f, timeout=None) -> bool:
         """True iff pc => f is proved (unsat of pc and not f). Unknown counts as not proved."""
         f = Z(f)
-        s = z3.simplify(f)
+        s = simp(f)
         if z3.is_true(s):
             return True
         if z3.is_false(s):
